@@ -590,7 +590,11 @@ def _gen_document(entry, rng, fill, maxrep, opt_prob, charset, rich, n_isa, n_gs
     icvn = entry['icvn']
     rep = 'U'
     if icvn == '00501':
-        rep = '^' if charset == 'E' else '!'      # the repetition separator must be a character the declared character set allows
+        # the repetition separator must be a character the declared character set allows and no other delimiter
+        cands = ('^' if charset == 'E' else '') + '!&()+,./;?='
+        rep = [c for c in cands if c not in forbid or c == '^'][0]
+        if rep in forbid and rep != '^':
+            rep = [c for c in cands if c not in forbid][0]
     V.forbid.add(rep)
     used_isa = set()
     for ii in range(n_isa):
